@@ -117,8 +117,8 @@ func rscenario(c rscen) *hk.Scenario {
 
 func init() {
 	hk.Register(&hk.Check{
-		ID: "C17R",
-		Rule: "E1 schedule exploration (-race): two writers on the same stream (two packets each) || optional SetRate || the pacer goroutine and up to two timer firings, then a deterministic drain; oracle: every accepted packet delivered exactly once and intact, the packets of each writer in the order its Write calls returned; outcomes = delivery orders",
+		ID:          "C17R",
+		Rule:        "E1 schedule exploration (-race): two writers on the same stream (two packets each) || optional SetRate || the pacer goroutine and up to two timer firings, then a deterministic drain; oracle: every accepted packet delivered exactly once and intact, the packets of each writer in the order its Write calls returned; outcomes = delivery orders",
 		Assumptions: []string{"vsched model and race annotations (litmus suite)"},
 		Jobs: func(tier string) []string {
 			var n []string
